@@ -120,6 +120,8 @@ def run_check(prop_id: str, tier: str, seed: int, cap_s: float = None) -> int:
     # VERIF_SEED only rotates the order in which shards are handed out and which samples are kept.
     rot = seed % max(ncases, 1)
     order = cases[rot:] + cases[:rot]
+    if hasattr(mod, 'weight'):           # heavy cases first (load balance only; the set is unchanged)
+        order.sort(key=mod.weight, reverse=True)
 
     agg = dict(evaluations=0, premise_not_met=0, crashed_inputs=0, cases_done=0)
     clauses = Counter()
@@ -161,7 +163,7 @@ def run_check(prop_id: str, tier: str, seed: int, cap_s: float = None) -> int:
                 break
     else:
         ctx = mp.get_context('fork')
-        chunksize = max(1, min(64, ncases // (nproc * 8)))
+        chunksize = 1 if ncases <= 20000 else max(1, min(64, ncases // (nproc * 8)))
         with ctx.Pool(nproc) as pool:
             for r in pool.imap_unordered(_worker, order, chunksize=chunksize):
                 consume(r)
